@@ -246,7 +246,7 @@ func Select(hasDefault bool, cases ...Case) int {
 	for i, c := range cases {
 		c.park(s, &waiter{t: t, arm: i, gone: gone})
 	}
-	block(func() bool { return t.committed })
+	blockOp(selOpName(cases), func() bool { return t.committed })
 	cases[t.selArm].take(t)
 	return t.selArm
 }
@@ -351,3 +351,13 @@ func (c *SendCase[T]) rcase() reflect.SelectCase {
 	return reflect.SelectCase{Dir: reflect.SelectSend, Chan: reflect.ValueOf(c.ch), Send: reflect.ValueOf(&c.v).Elem()}
 }
 func (c *SendCase[T]) setRes(reflect.Value, bool) {}
+
+func selOpName(cases []Case) string {
+	if len(cases) == 1 {
+		if _, ok := cases[0].(interface{ canSend(*Sched) bool }); ok {
+			return "chan-send"
+		}
+		return "chan-recv"
+	}
+	return "select"
+}
